@@ -66,6 +66,43 @@ func c05Operands() []operand {
 	return ops
 }
 
+// c05NumericString draws a numeric string (3.2) from every size class: doubles from all
+// strata, digit strings of 1-25 digits, the neighbours of 2^31, 2^32, 2^53, 2^63, 2^64 and
+// 10^19, optional sign, leading zeros, fractions and exponents.
+func c05NumericString(t *rapid.T) string {
+	var core string
+	switch rapid.IntRange(0, 3).Draw(t, "nskind") {
+	case 0:
+		core = gen.NumText(gen.Float64().Draw(t, "nsx"))
+		if strings.HasPrefix(core, "-") {
+			core = core[1:]
+		}
+	case 1:
+		core = rapid.SampledFrom([]string{"2147483647", "2147483648", "4294967295", "4294967296", "9007199254740991", "9007199254740992", "9007199254740993",
+			"999999999999999999", "1000000000000000000", "9223372036854775807", "9223372036854775808", "9223372036854775809", "9999999999999999999", "10000000000000000000",
+			"18446744073709551615", "18446744073709551616", "99999999999999999999", "123456789012345678901234567890"}).Draw(t, "nsfixed")
+	case 2:
+		n := rapid.IntRange(1, 25).Draw(t, "nsdigits")
+		b := make([]byte, n)
+		for k := range b {
+			b[k] = byte('0' + rapid.IntRange(0, 9).Draw(t, "nsd"))
+		}
+		core = string(b)
+	default:
+		core = fmt.Sprint(rapid.IntRange(0, 99999).Draw(t, "nsint"))
+	}
+	if rapid.IntRange(0, 3).Draw(t, "nsfrac") == 0 && !strings.ContainsAny(core, ".eE") {
+		core += "." + fmt.Sprint(rapid.IntRange(0, 999).Draw(t, "nsf"))
+	}
+	if rapid.IntRange(0, 5).Draw(t, "nsexp") == 0 && !strings.ContainsAny(core, "eE") {
+		core += rapid.SampledFrom([]string{"e0", "e1", "E2", "e-3", "e+5", "e18", "e-20"}).Draw(t, "nse")
+	}
+	if rapid.IntRange(0, 5).Draw(t, "nszero") == 0 {
+		core = strings.Repeat("0", rapid.IntRange(1, 3).Draw(t, "nsz")) + core
+	}
+	return rapid.SampledFrom([]string{"", "", "-", "+"}).Draw(t, "nssign") + core
+}
+
 func jsonString(s string) string {
 	var sb strings.Builder
 	sb.WriteByte('"')
@@ -423,6 +460,48 @@ func TestC05(t *testing.T) {
 		}
 		c := &DCase{Prog: ast.Prog(fun, ast.Rule("BEGIN", nil, ast.Block(stmts...))), Tag: "pattern syntax: " + strings.Join(names, " ; ")}
 		runDiff(rec, rt, "operator", c, false, nil, "pattern-syntax")
+	})
+
+	// numeric strings of every length and spelling, as literal, variable and document field:
+	// the value is the nearest double of the decimal text (3.2), whatever size class the
+	// digit string falls into
+	check(rec, "numeric-strings", scale(3000, 1500000), func(rt *rapid.T) {
+		str := c05NumericString(rt)
+		fun := ast.Func("fun", nil, ast.Block(ast.Return(ast.Num("1"))))
+		var operand *ast.Node
+		c := &DCase{}
+		var pre []*ast.Node
+		switch rapid.IntRange(0, 2).Draw(rt, "nsupply") {
+		case 0:
+			operand = ast.Str(str)
+		case 1:
+			pre = append(pre, ast.ExprS(ast.Set(ast.Id("ns"), ast.Str(str))))
+			operand = ast.Id("ns")
+		default:
+			c.Files = []DFile{{Name: "in", Docs: []string{`{"s":` + gen.JSONString(str) + `}`}}}
+			operand = ast.Mem(ast.Dollar(), "s")
+		}
+		var expr *ast.Node
+		other := rapid.SampledFrom([]*ast.Node{ast.Num("1"), ast.Num("0"), ast.Num("9223372036854775808"), ast.Num("5000000000000000000"), ast.Str("1"), ast.True(), ast.Null()}).Draw(rt, "nother").Clone()
+		switch op := rapid.SampledFrom([]string{"neg", "pos", "*", "-", "/", "==", "<", ">=", "rsub", "!="}).Draw(rt, "nop"); op {
+		case "neg":
+			expr = ast.Un("-", operand)
+		case "pos":
+			expr = ast.Un("+", operand)
+		case "rsub":
+			expr = ast.Bin("-", other, operand)
+		default:
+			expr = ast.Bin(op, operand, other)
+		}
+		stmts := append(pre, ast.ExprS(ast.Set(ast.Id("r"), expr)))
+		stmts = append(stmts, c05Observe()...)
+		kind := "BEGIN"
+		if c.Files != nil {
+			kind = "pattern"
+		}
+		c.Prog = ast.Prog(fun, ast.Rule(kind, nil, ast.Block(stmts...)))
+		c.Tag = "numeric string " + str
+		runDiff(rec, rt, "operator", c, false, nil, "numeric-strings")
 	})
 
 	// random operands
